@@ -87,7 +87,14 @@ func (f *formatValidator) Validate(val interface{}) *Result {
 		result = new(Result)
 	}
 
-	if err := FormatOf(f.Path, f.In, f.Format, val.(string), f.KnownFormats); err != nil {
+	str, isString := val.(string)
+	if !isString {
+		// a value of string kind that is not a plain string (e.g. a json.Number met where the schema
+		// does not declare a numeric type): there is no string to check the format of
+		return result
+	}
+
+	if err := FormatOf(f.Path, f.In, f.Format, str, f.KnownFormats); err != nil {
 		result.AddErrors(err)
 	}
 
